@@ -384,6 +384,7 @@ func c02Form(src string) slip.Object {
 
 // c02Run reads text through the given entry point.
 func c02Run(entry string, text []byte, plan c02Plan, cfg c02Cfg) c02Out {
+	c02Enter(&c02Job{Kind: "run", Entry: entry, text: text, Plan: plan, Base: cfg.Base, Sym: cfg.Sym})
 	scope := cfg.scope()
 	return c02Protect(func(out *c02Out) {
 		switch entry {
@@ -453,6 +454,7 @@ func c02Run(entry string, text []byte, plan c02Plan, cfg c02Cfg) c02Out {
 
 // c02FormByForm reads the text one form at a time with ReadOne, continuing at the reported position.
 func c02FormByForm(text []byte, cfg c02Cfg) c02Out {
+	c02Enter(&c02Job{Kind: "fbf", text: text, Base: cfg.Base, Sym: cfg.Sym})
 	scope := cfg.scope()
 	return c02Protect(func(out *c02Out) {
 		off := 0
@@ -478,6 +480,7 @@ func c02FormByForm(text []byte, cfg c02Cfg) c02Out {
 
 // c02RfsAt is (read-from-string text nil eof :start n :preserve-whitespace pw): object and position.
 func c02RfsAt(text []byte, cfg c02Cfg, start int, preserve bool) c02Out {
+	c02Enter(&c02Job{Kind: "rfsat", text: text, Base: cfg.Base, Sym: cfg.Sym, Start: start, Preserve: preserve})
 	scope := cfg.scope()
 	scope.Let(slip.Symbol("c02-text"), slip.String(text))
 	return c02Protect(func(out *c02Out) {
@@ -501,6 +504,7 @@ func c02RfsAt(text []byte, cfg c02Cfg, start int, preserve bool) c02Out {
 // c02RfsFormByForm does the same with (read-from-string text nil eof :start n); positions are
 // character indexes, so the text is given as runes.
 func c02RfsFormByForm(text []byte, cfg c02Cfg, preserve bool) c02Out {
+	c02Enter(&c02Job{Kind: "rfsfbf", text: text, Base: cfg.Base, Sym: cfg.Sym, Preserve: preserve})
 	scope := cfg.scope()
 	scope.Let(slip.Symbol("c02-text"), slip.String(text))
 	nrunes := len([]rune(string(text)))
